@@ -138,4 +138,61 @@ theorem sortNodes_of_sorted {l : List Nat} (h : l.Pairwise (· ≤ ·)) : sortNo
 theorem sortNodes_idem (l : List Nat) : sortNodes (sortNodes l) = sortNodes l :=
   sortNodes_of_sorted (sortNodes_sorted l)
 
+/-! ### node sets -/
+
+theorem mem_insertUniq (a x : Nat) (l : List Nat) : x ∈ insertUniq a l ↔ x = a ∨ x ∈ l := by
+  induction l with
+  | nil => simp [insertUniq]
+  | cons b bs ih =>
+    simp only [insertUniq]
+    split
+    · simp
+    · split
+      · rename_i h; subst h; simp
+      · simp [ih]; grind
+
+theorem mem_nodeSet {l : List Nat} {x : Nat} : x ∈ nodeSet l ↔ x ∈ l := by
+  induction l with
+  | nil => simp [nodeSet]
+  | cons a l ih =>
+    have : nodeSet (a :: l) = insertUniq a (nodeSet l) := rfl
+    rw [this, mem_insertUniq, ih]; simp
+
+theorem insertUniq_sorted (a : Nat) (l : List Nat) (h : l.Pairwise (· < ·)) : (insertUniq a l).Pairwise (· < ·) := by
+  induction l with
+  | nil => simp [insertUniq]
+  | cons b bs ih =>
+    have hb := List.pairwise_cons.mp h
+    simp only [insertUniq]
+    split
+    · rename_i hab
+      refine List.pairwise_cons.mpr ⟨?_, h⟩
+      intro x hx
+      rcases List.mem_cons.mp hx with hx | hx
+      · omega
+      · have := hb.1 x hx; omega
+    · split
+      · exact h
+      · rename_i h1 h2
+        refine List.pairwise_cons.mpr ⟨?_, ih hb.2⟩
+        intro x hx
+        rcases (mem_insertUniq a x bs).mp hx with hx | hx
+        · omega
+        · exact hb.1 x hx
+
+theorem nodeSet_sorted (l : List Nat) : (nodeSet l).Pairwise (· < ·) := by
+  induction l with
+  | nil => simp [nodeSet]
+  | cons a l ih => exact insertUniq_sorted a _ ih
+
+/-- the node set only depends on which nodes occur -/
+theorem nodeSet_eq_of_mem {l l' : List Nat} (h : ∀ x, x ∈ l ↔ x ∈ l') : nodeSet l = nodeSet l' := by
+  have nd : ∀ m : List Nat, (nodeSet m).Nodup := fun m =>
+    (nodeSet_sorted m).imp (fun hab => Nat.ne_of_lt hab)
+  have hp : (nodeSet l).Perm (nodeSet l') := by
+    rw [List.perm_ext_iff_of_nodup (nd l) (nd l')]
+    intro x; rw [mem_nodeSet, mem_nodeSet]; exact h x
+  exact List.Perm.eq_of_pairwise (le := (· < ·)) (fun a b _ _ h1 h2 => absurd h1 (Nat.lt_asymm h2))
+    (nodeSet_sorted l) (nodeSet_sorted l') hp
+
 end C02
